@@ -164,6 +164,20 @@ def structured_family():
     out.append(("static initialiser storing into another class's statics", Program([
         Func("main", [], VOID, [Echo(SFld("Registry", "registered")), Echo(SCall("Registry", "describe")), Echo(Fld(SFld("Defaults", "panel"), "label")), Echo(SFld("Registry", "count"))])],
         [widget, registry, defaults])))
+    # 13. a bounded generic class named with a class type argument in field types, member signatures and extends clauses of other classes
+    ani = Class("Animal", "", [], [Method("name", [], P("str"), [Ret(S("animal"))], virtual=True)], [Ctor([], [], default=True)], [])
+    felid = Class("Felid", "Animal", [], [], [Ctor([], [Super()])], [])
+    cat = Class("Cat", "Felid", [], [Method("name", [], P("str"), [Ret(S("cat"))], override=True)], [Ctor([], [Super()])], [])
+    cage2 = dict(Class("Cage", "", [Field(P("T"), "occupant")], [Method("get", [], P("T"), [Ret(Var("occupant"))])],
+                       [Ctor([Param(P("T"), "t")], [Expr(FAsg(This(), "occupant", Var("t")))])], [], tparams=["T"]), tbounds={"T": "Animal"})
+    shelter = Class("Shelter", "", [Field(C("Cage", [C("Cat")]), "cage")], [Method("resident", [], C("Cage", [C("Cat")]), [Ret(Var("cage"))]),
+                                                                             Method("swap", [Param(C("Cage", [C("Cat")]), "c")], VOID, [Expr(FAsg(This(), "cage", Var("c")))])],
+                    [Ctor([], [Expr(FAsg(This(), "cage", New("Cage", New("Cat"), targs=[C("Cat")])))])], [])
+    catcage = Class("CatCage", "Cage", [], [], [Ctor([], [Super(New("Cat"))])], [], base_targs=[C("Cat")])
+    out.append(("bounded generic named in other classes' members", Program([
+        Func("main", [], VOID, [Decl(C("Shelter"), "sh", New("Shelter")), Echo(MCall(MCall(MCall(Var("sh"), "resident"), "get"), "name")),
+                                Decl(C("CatCage"), "cc", New("CatCage")), Expr(MCall(Var("sh"), "swap", Var("cc"))), Echo(MCall(Fld(Fld(Var("sh"), "cage"), "occupant"), "name"))])],
+        [ani, felid, cat, cage2, shelter, catcage])))
     return out
 
 
